@@ -7,6 +7,7 @@ import (
 	"go/token"
 	"go/types"
 	"math/big"
+	"sort"
 	"strings"
 
 	"golang.org/x/tools/go/ssa"
@@ -455,15 +456,98 @@ func (g *Gen) defineFresh(v ssa.Value) string {
 func (g *Gen) freshOf(prefix string, t types.Type) string {
 	n := g.fresh(prefix, g.sortOf(t))
 	g.assume(g.typeFacts(n, t))
+	g.observe(n, t)
 	return n
 }
 
 // newObject returns a fresh object id (array / struct / map / cell).
+// Allocation clock: atime(ref) orders objects by when they came into existence. Every
+// allocation site outside a loop gets the next value of a static counter; a pointer-like value
+// OBSERVED (parameter, call result, load) outside a loop existed by then, so its atime is at
+// most the counter at that point and every later allocation is distinct from it. Inside loops
+// values flow across back edges, so observations there assert nothing and allocations only get
+// a lower bound.
+func (g *Gen) inLoop(b *ssa.BasicBlock) bool {
+	if b == nil {
+		return false
+	}
+	for _, l := range g.loops {
+		if l.blocks[b] {
+			return true
+		}
+	}
+	return false
+}
+
+func (g *Gen) observe(term string, t types.Type) {
+	if g.inLoop(g.cur) {
+		return
+	}
+	var ref string
+	switch types.Unalias(t).Underlying().(type) {
+	case *types.Pointer, *types.Map, *types.Chan:
+		ref = term
+	case *types.Slice:
+		ref = app("s_arr", term)
+	default:
+		return
+	}
+	g.declareFun("atime", []string{"Int"}, "Int")
+	f := app("<=", app("atime", ref), numI(int64(g.allocCounter)))
+	if g.cur == nil {
+		g.global(f)
+	} else {
+		g.assume(f)
+	}
+}
+
 func (g *Gen) newObject(prefix string) string {
 	id := g.fresh(prefix, "Int")
 	g.declareFun("alloc0", []string{"Int"}, "Bool")
+	g.declareFun("atime", []string{"Int"}, "Int")
+	g.allocCounter++
+	if g.inLoop(g.cur) {
+		g.assume(app(">=", app("atime", id), numI(int64(g.allocCounter))))
+	} else {
+		g.assume(app("=", app("atime", id), numI(int64(g.allocCounter))))
+	}
 	g.assume(app(">", id, "0"))
 	g.assume(not(app("alloc0", id)))
+	// A new object differs from every object an SSA value in scope already denotes: values whose
+	// definition dominates this allocation were computed before it in the current iteration (or
+	// before the loop), so they cannot refer to the object being created now.
+	if g.cur != nil {
+		var refs []string
+		for v, term := range g.vals {
+			var ref string
+			switch types.Unalias(v.Type()).Underlying().(type) {
+			case *types.Pointer, *types.Map, *types.Chan:
+				ref = term
+			case *types.Slice:
+				ref = app("s_arr", term)
+			default:
+				continue
+			}
+			switch d := v.(type) {
+			case *ssa.Parameter, *ssa.FreeVar:
+			case ssa.Instruction:
+				b := d.Block()
+				if b == nil || !(b == g.cur || b.Dominates(g.cur)) {
+					continue
+				}
+			default:
+				continue
+			}
+			if ref == id {
+				continue
+			}
+			refs = append(refs, ref)
+		}
+		sort.Strings(refs)
+		for _, r := range refs {
+			g.assume(app("distinct", id, r))
+		}
+	}
 	for _, o := range g.allocSites {
 		g.assume(app("distinct", id, o))
 	}
@@ -665,6 +749,7 @@ func (g *Gen) unop(in *ssa.UnOp) {
 		t := g.loadIn(g.st, l)
 		g.define(in, t)
 		g.assume(g.typeFacts(g.vals[in], in.Type()))
+		g.observe(g.vals[in], in.Type())
 	case token.NOT:
 		g.define(in, not(g.val(in.X)))
 	case token.SUB:
